@@ -10,7 +10,7 @@
 (***************************************************************************)
 EXTENDS DebDependency
 
-\* alternative = [name, restr]  restr \in {"none", "only-target", "only-other", "not-target", "not-other", "substvar"}
+\* alternative = [name, restr]  restr \in {"none", "only-target", "only-other", "not-target", "not-other", "not-target2", "substvar"}
 Admits(restr) == restr \in {"none", "only-target", "not-other"}
 Selected(rel) == LET ok == {k \in 1..Len(rel) : rel[k].restr # "substvar" /\ Admits(rel[k].restr)} IN
                  IF ok = {} THEN <<>> ELSE <<rel[CHOOSE k \in ok : \A j \in ok : k <= j].name>>
@@ -51,6 +51,7 @@ RenderAlt(a) ==
       [] a.restr = "only-target" -> a.name \o <<SP, LBRACK>> \o TargetArch \o <<RBRACK>>
       [] a.restr = "only-other"  -> a.name \o <<SP, LBRACK>> \o OtherArch \o <<RBRACK>>
       [] a.restr = "not-target"  -> a.name \o <<SP, LBRACK, BANG>> \o TargetArch \o <<RBRACK>>
+      [] a.restr = "not-target2" -> a.name \o <<SP, LBRACK, BANG>> \o OtherArch \o <<SP, BANG>> \o TargetArch \o <<RBRACK>>
       [] a.restr = "not-other"   -> a.name \o <<SP, LBRACK, BANG>> \o OtherArch \o <<SP, BANG, 97, 114, 109, 54, 52, RBRACK>>
 RenderField(rels, folded) ==
     Join([r \in 1..Len(rels) |-> Join([k \in 1..Len(rels[r]) |-> RenderAlt(rels[r][k])], <<SP, PIPE, SP>>)],
